@@ -31,6 +31,8 @@ import (
 	"sort"
 	"strconv"
 	"strings"
+	"sync"
+	"sync/atomic"
 	"syscall"
 	"time"
 
@@ -166,7 +168,8 @@ func OuterSiteOf(stack string) string {
 
 // Try runs one target with panic recovery and records its outcome class.
 func (r *Rec) Try(target string, f func() error) (class string) {
-	if skipTargets[target] || skipTargets[target+"|"+r.class] {
+	hand := strings.HasPrefix(r.class, "fixed:") || strings.HasPrefix(r.class, "suspect:")
+	if !hand && (skipTargets[target] || skipTargets[target+"|"+r.class]) {
 		r.line(fmt.Sprintf("R %d %s skipped", r.id, target))
 		return "skipped"
 	}
@@ -295,6 +298,7 @@ type Config struct {
 	Batch       int
 	StallS      int // a child that records no progress (no new result line) for this long hangs
 	MaxHangs    int // after this many confirmed hangs of one target the target is skipped (and reported as skipped)
+	Par         int // children running in parallel
 	WorkDir     string
 	ChildTest   string
 	ExtraEnv    []string
@@ -303,9 +307,10 @@ type Config struct {
 
 func DefaultConfig() Config {
 	return Config{
-		Batch:     verifutil.EnvInt("VERIF_C04_BATCH_N", 150),
+		Batch:     verifutil.EnvInt("VERIF_C04_BATCH_N", 60),
 		StallS:    verifutil.EnvInt("VERIF_C04_HANG_S", 8),
-		MaxHangs:  verifutil.EnvInt("VERIF_C04_MAX_HANGS", 3),
+		MaxHangs:  verifutil.EnvInt("VERIF_C04_MAX_HANGS", 2),
+		Par:       verifutil.EnvInt("VERIF_C04_PAR", 6),
 		ChildTest: "TestVerifC04Child",
 	}
 }
@@ -315,11 +320,10 @@ type died struct {
 	stderr string
 }
 
-var childSeq int
+var childSeq atomic.Int64
 
 func runChild(cfg Config, ins []Input, stall time.Duration, skip []string) (*childRes, *died) {
-	childSeq++
-	base := fmt.Sprintf("%s/c04-%d-%d", cfg.WorkDir, os.Getpid(), childSeq)
+	base := fmt.Sprintf("%s/c04-%d-%d", cfg.WorkDir, os.Getpid(), childSeq.Add(1))
 	bf, rf, ef := base+".batch", base+".res", base+".err"
 	defer func() { os.Remove(bf); os.Remove(rf); os.Remove(ef) }()
 	b, _ := json.Marshal(ins)
@@ -522,7 +526,25 @@ func describe(in *Input) string {
 	return s
 }
 
-// Run executes all inputs in crash-isolated batches and reports into out.
+// deathRep is the recorded death of the child on one input.
+type deathRep struct {
+	how, kind, site, head, tgt string
+	confirmed                  bool
+}
+
+// inRes is everything recorded about one input (filled by the workers, emitted in input order).
+type inRes struct {
+	results [][2]string
+	panics  [][3]string
+	fails   [][2]string
+	lines   [][2]string
+	ms      int
+	death   *deathRep
+	extra   []string // extra failures: (sig, what) pairs flattened
+}
+
+// Run executes all inputs in crash-isolated batches (several children in parallel) and reports
+// into out in input order, so that the streams are a function of the seed only.
 func Run(out *verifutil.Out, inputs []Input, cfg Config) Summary {
 	var sum Summary
 	if cfg.WorkDir == "" {
@@ -533,96 +555,6 @@ func Run(out *verifutil.Out, inputs []Input, cfg Config) Summary {
 		defer os.RemoveAll(d)
 		cfg.WorkDir = d
 	}
-	for i := range inputs {
-		inputs[i].ID = i
-	}
-	byID := func(id int) *Input { return &inputs[id] }
-	timeByClass := map[string]int{}
-	defer func() {
-		if os.Getenv("VERIF_C04_TIMES") != "" {
-			for k, v := range timeByClass {
-				fmt.Fprintf(os.Stderr, "TIME %8d ms %s\n", v, k)
-			}
-		}
-	}()
-	absorb := func(cr *childRes, ids []int) {
-		for _, id := range ids {
-			in := byID(id)
-			timeByClass[in.Class] += cr.ms[id]
-			for _, r := range cr.results[id] {
-				cl := r[1]
-				if cl == "panic" {
-					cl = "crash"
-				}
-				out.Count("out:" + r[0] + ":" + cl)
-				out.Count("outcome:" + cl)
-			}
-			for _, p := range cr.panics[id] {
-				sum.Crashes++
-				out.Fail(sigOf("crash", p[1], KindOf(p[2]), in), fmt.Sprintf("panic in target %s: %s; %s", p[0], p[2], describe(in)))
-			}
-			for _, f := range cr.fails[id] {
-				fs := f[0]
-				if strings.HasPrefix(in.Class, "fixed:") || strings.HasPrefix(in.Class, "suspect:") {
-					fs += "@" + in.Class
-				}
-				out.Fail(fs, f[1]+"; "+describe(in))
-			}
-			for _, l := range cr.lines[id] {
-				out.Emit(l[0], l[1])
-			}
-			if in.MustErr {
-				for _, r := range cr.results[id] {
-					if (r[0] == "open" || r[0] == "mem" || strings.HasPrefix(r[0], "footer")) && r[1] == "ok" {
-						out.Fail("repaired-input-accepted:"+in.Class, fmt.Sprintf("target %s accepted an input that must be rejected; %s", r[0], describe(in)))
-					}
-				}
-			}
-			// distinct: (class, outcome vector)
-			var ov []string
-			for _, r := range cr.results[id] {
-				ov = append(ov, r[0]+"="+r[1])
-			}
-			sort.Strings(ov)
-			out.Distinct(in.Class + "|" + strings.Join(ov, ","))
-		}
-	}
-	reportDeath := func(in *Input, cr *childRes, d *died, confirmed bool) {
-		kind, site, head := classifyDeath(d)
-		tgt := cr.lastTgt[in.ID]
-		if kind == "hang" {
-			sum.Hangs++
-		} else {
-			sum.Crashes++
-		}
-		out.Count("out:" + tgt + ":crash")
-		out.Count("outcome:crash")
-		if site == "unknown" {
-			site = "in-" + tgt
-		}
-		pk := ""
-		if kind == "crash" {
-			pk = KindOf(head)
-		}
-		sig := sigOf(kind, site, pk, in)
-		if kind == "oom" {
-			sig = sigOf("oom", tgt, "", in)
-		}
-		if !confirmed {
-			sig += ":only-in-batch"
-		}
-		out.Fail(sig, fmt.Sprintf("child process died (%s) in target %s: %s ; %s", d.how, tgt, head, describe(in)))
-	}
-	hangs := map[string]int{}
-	skipped := map[string]bool{}
-	skipList := func() []string {
-		var l []string
-		for t := range skipped {
-			l = append(l, t)
-		}
-		sort.Strings(l)
-		return l
-	}
 	if only := os.Getenv("VERIF_C04_ONLY"); only != "" {
 		var keep []Input
 		for _, in := range inputs {
@@ -631,114 +563,266 @@ func Run(out *verifutil.Out, inputs []Input, cfg Config) Summary {
 			}
 		}
 		inputs = keep
-		for i := range inputs {
-			inputs[i].ID = i
-		}
 	}
-	pending := make([]int, len(inputs))
-	for i := range pending {
-		pending[i] = i
-		out.Count("in:" + inputs[i].Class)
-		out.Count("kind:" + inputs[i].Kind)
+	for i := range inputs {
+		inputs[i].ID = i
 	}
 	sum.Inputs = len(inputs)
-	for len(pending) > 0 {
-		n := cfg.Batch
-		if n > len(pending) {
-			n = len(pending)
+	res := make([]inRes, len(inputs))
+	var mu sync.Mutex // guards res, hangs, skipped, outside
+	hangs := map[string]int{}
+	skipped := map[string]bool{}
+	var outside []string
+	skipList := func() []string {
+		mu.Lock()
+		defer mu.Unlock()
+		var l []string
+		for t := range skipped {
+			l = append(l, t)
 		}
-		ids := pending[:n]
-		batch := make([]Input, n)
-		for i, id := range ids {
-			batch[i] = inputs[id]
-		}
-		cr, d := runChild(cfg, batch, time.Duration(cfg.StallS)*time.Second, skipList())
-		var doneIDs []int
+		sort.Strings(l)
+		return l
+	}
+	store := func(cr *childRes, ids []int) {
+		mu.Lock()
+		defer mu.Unlock()
 		for _, id := range ids {
-			if cr.ended[id] {
-				doneIDs = append(doneIDs, id)
+			r := &res[id]
+			r.results, r.panics, r.fails, r.lines, r.ms = cr.results[id], cr.panics[id], cr.fails[id], cr.lines[id], cr.ms[id]
+		}
+	}
+	storeDeath := func(id int, cr *childRes, d *died, confirmed bool) {
+		kind, site, head := classifyDeath(d)
+		mu.Lock()
+		defer mu.Unlock()
+		res[id].death = &deathRep{how: d.how, kind: kind, site: site, head: head, tgt: cr.lastTgt[id], confirmed: confirmed}
+	}
+	// one batch, including the handling of a dying child
+	runBatch := func(ids []int) {
+		pending := ids
+		for len(pending) > 0 {
+			n := len(pending)
+			cur := pending
+			batch := make([]Input, n)
+			for i, id := range cur {
+				batch[i] = inputs[id]
 			}
-		}
-		if d == nil && len(doneIDs) == n {
-			absorb(cr, doneIDs)
-			pending = pending[n:]
-			continue
-		}
-		if d == nil {
-			d = &died{how: "exit"}
-		}
-		// The child died.  The input that was started but not ended is the first suspect.  A panic
-		// in a goroutine the input started (errgroup worker) races with the main goroutine, which
-		// may be released by the worker's deferred Done and finish the input (even start the
-		// next ones) before the runtime kills the process: the inputs that ended last are suspects
-		// too.  Each suspect is run again alone; what it does alone is what is recorded.
-		culprit, k := -1, -1
-		for i, id := range ids {
-			if !cr.ended[id] {
-				for _, st := range cr.started {
-					if st == id {
-						culprit, k = id, i
+			cr, d := runChild(cfg, batch, time.Duration(cfg.StallS)*time.Second, skipList())
+			var doneIDs []int
+			for _, id := range cur {
+				if cr.ended[id] {
+					doneIDs = append(doneIDs, id)
+				}
+			}
+			if d == nil && len(doneIDs) == n {
+				store(cr, doneIDs)
+				return
+			}
+			if d == nil {
+				d = &died{how: "exit"}
+			}
+			// The child died.  The input that was started but not ended is the first suspect.  A
+			// panic in a goroutine the input started (errgroup worker) races with the main goroutine,
+			// which may be released by the worker's deferred Done and finish the input (even start
+			// the next ones) before the runtime kills the process: the inputs that ended last are
+			// suspects too.  Each suspect is run again alone; what it does alone is what is recorded.
+			culprit, k := -1, -1
+			for i, id := range cur {
+				if !cr.ended[id] {
+					for _, st := range cr.started {
+						if st == id {
+							culprit, k = id, i
+						}
 					}
-				}
-				break
-			}
-		}
-		var suspects []int
-		clean := doneIDs
-		if d.how == "exit" && len(doneIDs) > 0 {
-			nsus := 4
-			if nsus > len(doneIDs) {
-				nsus = len(doneIDs)
-			}
-			suspects = append(suspects, doneIDs[len(doneIDs)-nsus:]...)
-			clean = doneIDs[:len(doneIDs)-nsus]
-		}
-		if culprit >= 0 {
-			suspects = append(suspects, culprit)
-		}
-		absorb(cr, clean)
-		anyDied := false
-		for _, sid := range suspects {
-			in := byID(sid)
-			cr2, d2 := runChild(cfg, []Input{*in}, 2*time.Duration(cfg.StallS)*time.Second, skipList())
-			if d2 == nil {
-				absorb(cr2, []int{sid})
-				continue
-			}
-			anyDied = true
-			absorb(cr2, []int{sid}) // what the targets before the fatal one answered (recovered panics included)
-			reportDeath(in, cr2, d2, true)
-			if d2.how == "timeout" {
-				// A hang costs StallS*3 seconds.  The same target is not run again on inputs of
-				// the same class, and after MaxHangs hangs not at all (the gates open/mem/db are
-				// never switched off as a whole).  What was skipped is counted in the statistics;
-				// every hang that was seen is a reported violation.
-				t := cr2.lastTgt[sid]
-				hangs[t]++
-				skipped[t+"|"+in.Class] = true
-				out.Count("skipped-after-hang:" + t + "|" + in.Class)
-				if hangs[t] >= cfg.MaxHangs && !skipped[t] && t != "open" && t != "mem" && t != "db" {
-					skipped[t] = true
-					out.Count("skipped-after-hangs:" + t)
+					break
 				}
 			}
-		}
-		if !anyDied && d.how == "exit" {
-			// died in the batch, nobody dies alone: still a crash, attributed to the batch position
+			var suspects []int
+			clean := doneIDs
+			if d.how == "exit" && len(doneIDs) > 0 {
+				nsus := 3
+				if nsus > len(doneIDs) {
+					nsus = len(doneIDs)
+				}
+				suspects = append(suspects, doneIDs[len(doneIDs)-nsus:]...)
+				clean = doneIDs[:len(doneIDs)-nsus]
+			}
 			if culprit >= 0 {
-				reportDeath(byID(culprit), cr, d, false)
-			} else {
-				out.Fail("crash:child-outside-input", "child died outside of any input: "+firstLines(d.stderr, 20))
+				suspects = append(suspects, culprit)
+			}
+			store(cr, clean)
+			anyDied := false
+			for _, sid := range suspects {
+				in := &inputs[sid]
+				cr2, d2 := runChild(cfg, []Input{*in}, 2*time.Duration(cfg.StallS)*time.Second, skipList())
+				store(cr2, []int{sid}) // also what the targets before a fatal one answered
+				if d2 == nil {
+					continue
+				}
+				anyDied = true
+				storeDeath(sid, cr2, d2, true)
+				if d2.how == "timeout" {
+					// A hang costs StallS*3 seconds.  The same target is not run again on inputs
+					// of the same class, and after MaxHangs hangs not at all (the gates open/mem/db
+					// are never switched off as a whole).  What was skipped is counted in the
+					// statistics; every hang that was seen is a reported violation.
+					t := cr2.lastTgt[sid]
+					mu.Lock()
+					hangs[t]++
+					skipped[t+"|"+in.Class] = true
+					if hangs[t] >= cfg.MaxHangs && t != "open" && t != "mem" && t != "db" {
+						skipped[t] = true
+					}
+					mu.Unlock()
+				}
+			}
+			if !anyDied && d.how == "exit" {
+				// died in the batch, nobody dies alone: still a crash, pinned on the batch position
+				if culprit >= 0 {
+					storeDeath(culprit, cr, d, false)
+				} else {
+					mu.Lock()
+					outside = append(outside, firstLines(d.stderr, 20))
+					mu.Unlock()
+				}
+			}
+			switch {
+			case culprit >= 0:
+				pending = cur[k+1:]
+			case len(doneIDs) > 0 && len(doneIDs) < n:
+				pending = cur[len(doneIDs):]
+			default:
+				if len(doneIDs) == 0 {
+					mu.Lock()
+					outside = append(outside, "child died before the first input: "+firstLines(d.stderr, 20))
+					mu.Unlock()
+				}
+				return
 			}
 		}
-		switch {
-		case culprit >= 0:
-			pending = pending[k+1:]
-		case len(doneIDs) > 0:
-			pending = pending[len(doneIDs):]
-		default:
-			pending = pending[n:] // died before the first input: do not loop forever
-			out.Fail("crash:child-outside-input", "child died before the first input: "+firstLines(d.stderr, 20))
+	}
+	// feed the batches to the workers
+	par := cfg.Par
+	if par < 1 {
+		par = 1
+	}
+	ch := make(chan []int)
+	var wg sync.WaitGroup
+	for w := 0; w < par; w++ {
+		wg.Add(1)
+		go func() {
+			defer wg.Done()
+			for ids := range ch {
+				runBatch(ids)
+			}
+		}()
+	}
+	// hand-written scenarios: one child each (they are never skipped and several of them are
+	// expected to hang on a tree with open findings; alone they cost no one else time)
+	var rest []int
+	for id := range inputs {
+		if strings.HasPrefix(inputs[id].Class, "fixed:") || strings.HasPrefix(inputs[id].Class, "suspect:") {
+			ch <- []int{id}
+		} else {
+			rest = append(rest, id)
+		}
+	}
+	for i := 0; i < len(rest); i += cfg.Batch {
+		j := i + cfg.Batch
+		if j > len(rest) {
+			j = len(rest)
+		}
+		ch <- rest[i:j]
+	}
+	close(ch)
+	wg.Wait()
+
+	// emit in input order
+	timeByClass := map[string]int{}
+	for id := range inputs {
+		in := &inputs[id]
+		r := &res[id]
+		out.Count("in:" + in.Class)
+		out.Count("kind:" + in.Kind)
+		timeByClass[in.Class] += r.ms
+		for _, x := range r.results {
+			cl := x[1]
+			if cl == "panic" {
+				cl = "crash"
+			}
+			out.Count("out:" + x[0] + ":" + cl)
+			out.Count("outcome:" + cl)
+		}
+		for _, p := range r.panics {
+			sum.Crashes++
+			out.Fail(sigOf("crash", p[1], KindOf(p[2]), in), fmt.Sprintf("panic in target %s: %s; %s", p[0], p[2], describe(in)))
+		}
+		for _, f := range r.fails {
+			fs := f[0]
+			if strings.HasPrefix(in.Class, "fixed:") || strings.HasPrefix(in.Class, "suspect:") {
+				fs += "@" + in.Class
+			}
+			out.Fail(fs, f[1]+"; "+describe(in))
+		}
+		for _, l := range r.lines {
+			out.Emit(l[0], l[1])
+		}
+		if in.MustErr {
+			for _, x := range r.results {
+				if (x[0] == "open" || x[0] == "mem" || x[0] == "build.prio" || strings.HasPrefix(x[0], "footer")) && x[1] == "ok" {
+					out.Fail("repaired-input-accepted:"+in.Class, fmt.Sprintf("target %s accepted an input that must be rejected; %s", x[0], describe(in)))
+				}
+			}
+		}
+		if d := r.death; d != nil {
+			if d.kind == "hang" {
+				sum.Hangs++
+			} else {
+				sum.Crashes++
+			}
+			out.Count("out:" + d.tgt + ":crash")
+			out.Count("outcome:crash")
+			site := d.site
+			if site == "unknown" {
+				site = "in-" + d.tgt
+			}
+			pk := ""
+			if d.kind == "crash" {
+				pk = KindOf(d.head)
+			}
+			sig := sigOf(d.kind, site, pk, in)
+			if d.kind == "oom" || d.kind == "hang" {
+				// where the dump was taken (hang) or the allocation failed (oom) is accidental: the
+				// signature names the target, the message keeps the stack
+				sig = sigOf(d.kind, d.tgt, "", in)
+			}
+			if !d.confirmed {
+				sig += ":only-in-batch"
+			}
+			out.Fail(sig, fmt.Sprintf("child process died (%s) in target %s: %s ; %s", d.how, d.tgt, d.head, describe(in)))
+		}
+		// distinct: (class, outcome vector)
+		var ov []string
+		for _, x := range r.results {
+			ov = append(ov, x[0]+"="+x[1])
+		}
+		sort.Strings(ov)
+		out.Distinct(in.Class + "|" + strings.Join(ov, ","))
+	}
+	for _, o := range outside {
+		out.Fail("crash:child-outside-input", "child died outside of any input: "+o)
+	}
+	var sk []string
+	for t := range skipped {
+		sk = append(sk, t)
+	}
+	sort.Strings(sk)
+	for _, t := range sk {
+		out.Count("skipped-after-hang:" + t)
+	}
+	if os.Getenv("VERIF_C04_TIMES") != "" {
+		for k, v := range timeByClass {
+			fmt.Fprintf(os.Stderr, "TIME %8d ms %s\n", v, k)
 		}
 	}
 	return sum
